@@ -9,7 +9,7 @@ local macro "len_omega" : tactic =>
   `(tactic| ((try simp only [List.length_append, List.length_cons, List.length_nil]) <;> (try omega)))
 local macro "lst" : tactic => `(tactic| ((try simp only [List.append_assoc, List.cons_append, List.nil_append]) <;> (try rfl)))
 
-theorem tr_while (fuel : Nat) (env : Src.Env) (he : PlainEnv env) (neg : Bool) (t : Ev) (B : Src.Stmts) (k : Nat) (b : Src.B) :
+theorem tr_while (fuel : Nat) (env : Src.Env) (he : EnvOK cx env) (neg : Bool) (t : Ev) (B : Src.Stmts) (k : Nat) (b : Src.B) :
     Src.tr fuel [] env (.while_ neg t B) k b =
       ((Src.trStmts fuel [] (loopEnv env (tbl b).length k) B (tbl b).length (b.push (.halt (evInvalid "loop head"))).1).1.set (tbl b).length
         (if neg then .test t k (Src.trStmts fuel [] (loopEnv env (tbl b).length k) B (tbl b).length (b.push (.halt (evInvalid "loop head"))).1).2
@@ -19,9 +19,9 @@ theorem tr_while (fuel : Nat) (env : Src.Env) (he : PlainEnv env) (neg : Bool) (
   rw [Src.tr]; simp only [e]; rfl
 
 /-- `while not (t) { body }` : label, test jumping to the end, block, jump back -/
-theorem whileNeg_core (cx : Cx) (fuel : Nat) (env : Src.Env) (he : PlainEnv env) (lb : Nat) (hd : Hdr) (body : Stmts)
+theorem whileNeg_core (cx : Cx) (fuel : Nat) (env : Src.Env) (he : EnvOK cx env) (lb : Nat) (hd : Hdr) (body : Stmts)
     (ht : isTest hd.name = true) {s sa sb s' : St} {ops : List LItem} (o1 o2 sL eB : Nat)
-    (hP : ∀ env', PlainEnv env' → PieceOK cx ops sa sb (fun k b => Src.trStmts fuel [] env' (toSrcStmts body) k b) env')
+    (hP : ∀ env', EnvOK cx env' → PieceOK cx ops sa sb (fun k b => Src.trStmts fuel [] env' (toSrcStmts body) k b) env')
     (hsaL : sa.loops = (lb + 1, lb + 2) :: s.loops) (hsaC : sa.cases = s.cases) (hl : s'.loops = s.loops) (hc : s'.cases = s.cases) :
     PieceOK cx ([LItem.label (lb + 1) false, LItem.ljump ⟨o1, hd.name, hd.params⟩ (some (lb + 2))] ++
         ([LItem.label sL false] ++ ops ++ [LItem.label eB false]) ++
@@ -29,7 +29,7 @@ theorem whileNeg_core (cx : Cx) (fuel : Nat) (env : Src.Env) (he : PlainEnv env)
       (fun k b => Src.tr fuel [] env (.while_ true (hdrEv hd) (toSrcStmts body)) k b) env := by
   have hP0 := hP env he
   have htr := fun k b => tr_while fuel env he true (hdrEv hd) (toSrcStmts body) k b
-  have hgrow : ∀ k b, Grow b (Src.tr fuel [] env (.while_ true (hdrEv hd) (toSrcStmts body)) k b).1 := by
+  have hgrow : ∀ k b, Grow cx.Z b (Src.tr fuel [] env (.while_ true (hdrEv hd) (toSrcStmts body)) k b).1 := by
     intro k b
     rw [htr]
     exact ((Grow.push b _).trans ((hP _ (plainEnv_loopEnv he _ _)).grow _ _)).set_ge (Nat.le_refl _) _
@@ -104,9 +104,9 @@ theorem whileNeg_core (cx : Cx) (fuel : Nat) (env : Src.Env) (he : PlainEnv env)
   exact loop_body_run cx hPe sL eB _ hpBlk (tbl b).length _ hagB m' j' hex' hafter
 
 /-- `while (t) { body }` : jump to the test, block, test jumping back to the block -/
-theorem whilePos_core (cx : Cx) (fuel : Nat) (env : Src.Env) (he : PlainEnv env) (lb : Nat) (hd : Hdr) (body : Stmts)
+theorem whilePos_core (cx : Cx) (fuel : Nat) (env : Src.Env) (he : EnvOK cx env) (lb : Nat) (hd : Hdr) (body : Stmts)
     (ht : isTest hd.name = true) {s sa sb s' : St} {ops : List LItem} (o1 o2 sL eB cL bL : Nat)
-    (hP : ∀ env', PlainEnv env' → PieceOK cx ops sa sb (fun k b => Src.trStmts fuel [] env' (toSrcStmts body) k b) env')
+    (hP : ∀ env', EnvOK cx env' → PieceOK cx ops sa sb (fun k b => Src.trStmts fuel [] env' (toSrcStmts body) k b) env')
     (hsaL : sa.loops = (lb + 1, lb + 2) :: s.loops) (hsaC : sa.cases = s.cases) (hl : s'.loops = s.loops) (hc : s'.cases = s.cases) :
     PieceOK cx ([LItem.label (lb + 1) false, LItem.ljump ⟨o1, Gen.op_jump, []⟩ (some cL), LItem.label bL false] ++
         ([LItem.label sL false] ++ ops ++ [LItem.label eB false]) ++
@@ -114,7 +114,7 @@ theorem whilePos_core (cx : Cx) (fuel : Nat) (env : Src.Env) (he : PlainEnv env)
       (fun k b => Src.tr fuel [] env (.while_ false (hdrEv hd) (toSrcStmts body)) k b) env := by
   have hP0 := hP env he
   have htr := fun k b => tr_while fuel env he false (hdrEv hd) (toSrcStmts body) k b
-  have hgrow : ∀ k b, Grow b (Src.tr fuel [] env (.while_ false (hdrEv hd) (toSrcStmts body)) k b).1 := by
+  have hgrow : ∀ k b, Grow cx.Z b (Src.tr fuel [] env (.while_ false (hdrEv hd) (toSrcStmts body)) k b).1 := by
     intro k b
     rw [htr]
     exact ((Grow.push b _).trans ((hP _ (plainEnv_loopEnv he _ _)).grow _ _)).set_ge (Nat.le_refl _) _
@@ -216,9 +216,9 @@ theorem whilePos_core (cx : Cx) (fuel : Nat) (env : Src.Env) (he : PlainEnv env)
   rw [htgtC]; exact hQ
 
 /-- `WhileBlockCompileHandler.collect()` -/
-theorem while_pm (cx : Cx) (fuel : Nat) (env : Src.Env) (he : PlainEnv env) (lb : Nat) (neg : Bool) (hd : Hdr) (body : Stmts)
+theorem while_pm (cx : Cx) (fuel : Nat) (env : Src.Env) (he : EnvOK cx env) (lb : Nat) (neg : Bool) (hd : Hdr) (body : Stmts)
     (bodyM : M (List LItem)) (ht : isTest hd.name = true)
-    (hBody : ∀ env', PlainEnv env' → PM cx bodyM (fun k b => Src.trStmts fuel [] env' (toSrcStmts body) k b) env') :
+    (hBody : ∀ env', EnvOK cx env' → PM cx bodyM (fun k b => Src.trStmts fuel [] env' (toSrcStmts body) k b) env') :
     PM cx (whileOf lb neg hd bodyM) (fun k b => Src.tr fuel [] env (.while_ neg (hdrEv hd) (toSrcStmts body)) k b) env := by
   intro s items s' h
   cases neg with
